@@ -539,6 +539,37 @@ def convert_program(part, bench, group, name, kind, payload):
                                                                   len(got) if got is not None else None,
                                                                   len(ref), first), case)
             part.outcome('convert-%s-to-%s-equal' % (infmt.decode(), mode.decode()))
+            # conversion in place: output names the input file (same spelling, and through a link)
+            for how in ('same', 'link'):
+                part.n += 1
+                part.traces += 1
+                ipath = os.path.join(bench.dir, 'inpl_%s_%s_%s.bas' % (infmt.decode(), mode.decode(), how))
+                with open(ipath, 'wb') as f:
+                    f.write(open(inpath, 'rb').read())
+                opath = ipath
+                if how == 'link':
+                    opath = ipath + '.lnk'
+                    os.symlink(ipath, opath)
+                try:
+                    main_mod.main('--convert=%s' % mode_arg, ipath, opath)
+                except SystemExit:
+                    pass
+                except Exception as e:
+                    if from_pcbasic(e):
+                        part.violation('convert/host-exception/%s/in-place' % type(e).__name__,
+                                       '%s: --convert=%s in place raised %r' % (name, mode.decode(), e), case)
+                        continue
+                    raise
+                got = open(ipath, 'rb').read()
+                if got != ref:
+                    part.violation('convert/in-place-differs/%s-to-%s' % (infmt.decode(), mode.decode()),
+                                   '%s: --convert=%s with the %s file as both input and output (%s) leaves %d bytes %r..., '
+                                   'LOAD+SAVE in a Session %d bytes' % (name, mode.decode(), infmt.decode(), how, len(got),
+                                                                        got[:8], len(ref)), dict(case, inplace=how))
+                part.classes.add('convert-in-place|%s|%s>%s' % (how, infmt.decode(), mode.decode()))
+                os.remove(ipath)
+                if how == 'link':
+                    os.remove(opath)
             part.classes.add('convert|%s|%s>%s' % (group, infmt.decode(), mode.decode()))
 
 
